@@ -39,6 +39,13 @@ func (c08) Runs(tier string) int {
 func (p c08) Run(runseed uint64, tier string, acc *Acc) []*core.Violation {
 	r := core.NewRng(runseed)
 	fo := fileOpts(tier, 1, r.Chance(1, 2))
+	if r.Chance(1, 200) {
+		// a footer beyond 64 KiB: hundreds of row groups of a wide shape
+		fo.Shapes = []string{"flat", "flatb", "nested", "nestedb"}
+		fo.ManyPct, fo.ManyMax = 100, 260
+		fo.HugePct = 0
+		acc.Inc("class/huge-footer")
+	}
 	fo.LargePct = 1
 	if tier == "thorough" {
 		fo.LargePct = 2
@@ -91,7 +98,7 @@ func (p c08) Run(runseed uint64, tier string, acc *Acc) []*core.Violation {
 			if r.Intn(maxReq) < 64 {
 				addAll(core.Frag{Policy: "fixed", Arg: c})
 			}
-		case f.W.Large: // a large file costs ~30 ms per read: every c <= 16 and a sample
+		case f.W.Large || (f.W.Many && len(f.Data) > 100000): // a large file costs ~30 ms per read: every c <= 16 and a sample
 			if c <= 16 || r.Chance(1, 16) {
 				addAll(core.Frag{Policy: "fixed", Arg: c})
 			}
